@@ -586,6 +586,93 @@ def evaluateArgs (lookup : Bytes → Lookup) (isReg : Bytes → Bool) : Args →
     | .panic => .panic
 end
 
+/-! ## `evaluate` with the tree it leaves behind on `NoSuchVariable`
+
+`evaluate` works on `&mut Argument`. When it returns `Err(NoSuchVariable)` inside a file, `.du*` and
+instruction statements keep the (partly evaluated) tree and run `evaluate` on it again once the file
+has been read completely (`DataExpr::apply` / `schedule`), so for that error the tree state matters:
+everything left of the unknown identifier has been evaluated and simplified, the rest is untouched.
+After the other errors the statement is dropped, so their tree state is not modelled. -/
+
+inductive EvT (α : Type) where
+  | ok (ev : Ev) (a : α)
+  | nosuch (name : Bytes) (a : α)
+  | err (e : SimpErr)
+  | panic
+deriving Repr, Inhabited
+
+def afterRawT (ev : Ev) (a : Arg) : EvT Arg :=
+  match simplifyRaw a with
+  | .ok (c, a') => .ok (ev.or ⟨c, none⟩) a'
+  | .err e => .err e
+  | .panic => .panic
+
+mutual
+def evaluateT (lookup : Bytes → Lookup) (isReg : Bytes → Bool) : Arg → EvT Arg
+  | .const v => .ok ⟨false, none⟩ (.const v)
+  | .ident s =>
+    if isReg s then .ok ⟨false, none⟩ (.ident s)
+    else match lookup s with
+      | .notFound => .nosuch s (.ident s)
+      | .deferred => .ok ⟨false, some s⟩ (.ident s)
+      | .found v => .ok ⟨true, none⟩ (.const v)
+  | .str s => .ok ⟨false, none⟩ (.str s)
+  | .seq as =>
+    match evaluateArgsT lookup isReg as with
+    | .ok ev as' => .ok ev (.seq as')
+    | .nosuch n as' => .nosuch n (.seq as')
+    | .err e => .err e
+    | .panic => .panic
+  | .func f as =>
+    match evaluateArgsT lookup isReg as with
+    | .ok ev as' => .ok ev (.func f as')
+    | .nosuch n as' => .nosuch n (.func f as')
+    | .err e => .err e
+    | .panic => .panic
+  | .bin op l r =>
+    match evaluateT lookup isReg l with
+    | .ok e1 l' =>
+      match evaluateT lookup isReg r with
+      | .ok e2 r' => afterRawT (e1.or e2) (.bin op l' r')
+      | .nosuch n r' => .nosuch n (.bin op l' r')
+      | .err e => .err e
+      | .panic => .panic
+    | .nosuch n l' => .nosuch n (.bin op l' r)
+    | .err e => .err e
+    | .panic => .panic
+  | .neg v =>
+    match evaluateT lookup isReg v with
+    | .ok e1 v' => afterRawT e1 (.neg v')
+    | .nosuch n v' => .nosuch n (.neg v')
+    | .err e => .err e
+    | .panic => .panic
+  | .not v =>
+    match evaluateT lookup isReg v with
+    | .ok e1 v' => afterRawT e1 (.not v')
+    | .nosuch n v' => .nosuch n (.not v')
+    | .err e => .err e
+    | .panic => .panic
+  | .addr v =>
+    match evaluateT lookup isReg v with
+    | .ok e1 v' => afterRawT e1 (.addr v')
+    | .nosuch n v' => .nosuch n (.addr v')
+    | .err e => .err e
+    | .panic => .panic
+def evaluateArgsT (lookup : Bytes → Lookup) (isReg : Bytes → Bool) : Args → EvT Args
+  | .nil => .ok ⟨false, none⟩ .nil
+  | .cons a as =>
+    match evaluateT lookup isReg a with
+    | .ok e1 a' =>
+      match evaluateArgsT lookup isReg as with
+      | .ok e2 as' => .ok (e1.or e2) (.cons a' as')
+      | .nosuch n as' => .nosuch n (.cons a' as')
+      | .err e => .err e
+      | .panic => .panic
+    | .nosuch n a' => .nosuch n (.cons a' as)
+    | .err e => .err e
+    | .panic => .panic
+end
+
 /-! ## semantics of expressions -/
 
 /-- environment: the eventual value of every (non-register) identifier -/
